@@ -300,7 +300,89 @@ func (r *Raw) PruneAuth() *Raw {
 }
 
 // Canon computes the normal form.
+var rePrioFile = regexp.MustCompile(`__(exact|prefix|begin|regex)_\d+\.map$`)
+var rePrioRef = regexp.MustCompile(`map_[a-z]+\(([^,)]*__(?:exact|prefix|begin|regex)_\d+\.map)`)
+var reSetVarName = regexp.MustCompile(`set-var\(([^)]+)\)`)
+
+// canonPriority returns a copy of r in which the priority match files (host/path maps split because of overlapping paths:
+// <base>__<type>_NN.map) are named after their content, and in which consecutive lookups of such files are put in a
+// canonical order wherever their order cannot matter: two files whose keys belong to different hosts cannot both match one
+// request. The numbering and relative order of the files of different hosts follows Go map iteration in the controller.
+func (r *Raw) canonPriority() *Raw {
+	ren := map[string]string{}
+	hosts := map[string]map[string]bool{}
+	for p, ls := range r.Files {
+		if !rePrioFile.MatchString(p) {
+			continue
+		}
+		sorted := append([]string{}, ls...)
+		sort.Strings(sorted)
+		ren[p] = rePrioFile.ReplaceAllString(p, "__${1}_p"+digest(strings.Join(sorted, "\n"))[:10]+".map")
+		hs := map[string]bool{}
+		for _, l := range ls {
+			if f := strings.Fields(l); len(f) > 0 {
+				hs[strings.SplitN(f[0], "#", 2)[0]] = true
+			}
+		}
+		hosts[p] = hs
+	}
+	if len(ren) == 0 {
+		return r
+	}
+	out := &Raw{Dir: r.Dir, Prefix: r.Prefix, Files: map[string][]string{}, Missing: r.Missing, Certs: r.Certs}
+	for p, ls := range r.Files {
+		if n, ok := ren[p]; ok {
+			p = n
+		}
+		out.Files[p] = ls
+	}
+	disjoint := func(a, b string) bool {
+		for h := range hosts[a] {
+			if hosts[b][h] {
+				return false
+			}
+		}
+		return true
+	}
+	for _, s := range r.Sections {
+		ns := &Section{Kind: s.Kind, Name: s.Name, File: s.File, Lines: append([]string{}, s.Lines...)}
+		ref := func(l string) (file, v string) {
+			m := rePrioRef.FindStringSubmatch(l)
+			if m == nil {
+				return "", ""
+			}
+			if vm := reSetVarName.FindStringSubmatch(l); vm != nil {
+				v = vm[1]
+			}
+			return m[1], v
+		}
+		// bubble the commuting neighbours into content order
+		for changed := true; changed; {
+			changed = false
+			for i := 0; i+1 < len(ns.Lines); i++ {
+				fa, va := ref(ns.Lines[i])
+				fb, vb := ref(ns.Lines[i+1])
+				if fa == "" || fb == "" || va != vb || !disjoint(fa, fb) {
+					continue
+				}
+				if ren[fa] > ren[fb] {
+					ns.Lines[i], ns.Lines[i+1] = ns.Lines[i+1], ns.Lines[i]
+					changed = true
+				}
+			}
+		}
+		for i, l := range ns.Lines {
+			if f, _ := ref(l); f != "" {
+				ns.Lines[i] = strings.ReplaceAll(l, f, ren[f])
+			}
+		}
+		out.Sections = append(out.Sections, ns)
+	}
+	return out
+}
+
 func (r *Raw) Canon() *NF {
+	r = r.canonPriority()
 	nf := &NF{Sections: map[string][]string{}, Maps: map[string][]string{}, Dups: []string{}, Missing: []string{}}
 	repl := r.renames()
 	canonTok := func(l string) string {
